@@ -30,6 +30,10 @@ theorem fitsT_or_bad (enc : Enc) : ∀ (n : Nat) (ty : Ty) (b : Bool) (v : Node)
     | i64 => exact leafTy _ rfl
     | u64 => exact leafTy _ rfl
     | i32 => exact leafTy _ rfl
+    | i16 => exact leafTy _ rfl
+    | u16 => exact leafTy _ rfl
+    | i8 => exact leafTy _ rfl
+    | u8 => exact leafTy _ rfl
     | u32 => exact leafTy _ rfl
     | f64 => exact leafTy _ rfl
     | f32 => exact leafTy _ rfl
